@@ -59,6 +59,7 @@ def required_cells(tier):
     cells += ['corrupt:C:letter', 'corrupt:A:letter']
     cells += ['depth:1', 'depth:2', 'depth:3', 'nothing-ran:comment-only', 'nothing-ran:skip-block',
               'nothing-ran:google-no-prompts', 'no-want-at-all', 'blankline-want:A', 'blankline-want:B', 'ok:I', 'stale-after-ignored-want']
+    cells += ['escape:' + k for k, _ in ESCAPES]
     return cells
 
 
@@ -432,6 +433,43 @@ def check_nothing_ran(ctx):
         ctx.nontrivial(doc)
 
 
+ESCAPES = [
+    # an exception that no want documents escapes: the doctest fails with it whatever is (or is not) compared
+    ('no-want', '>>> quiet(1)\n>>> int("zz")\n>>> quiet(2)'),
+    ('ordinary-want', '>>> quiet(1)\n>>> int("zz")\n12\n>>> quiet(2)'),
+    ('ignore-want-inline', '>>> quiet(1)\n>>> int("zz")  # xdoctest: +IGNORE_WANT\n12\n>>> quiet(2)'),
+    ('ignore-want-block', '>>> # xdoctest: +IGNORE_WANT\n>>> quiet(1)\n>>> print("a")\nb\n>>> int("zz")\n12\n>>> quiet(2)'),
+    ('ignore-want-block-no-want', '>>> # xdoctest: +IGNORE_WANT\n>>> quiet(1)\n>>> int("zz")\n>>> quiet(2)'),
+    ('ignore-want-default', '>>> quiet(1)\n>>> int("zz")\n12\n>>> quiet(2)'),
+    ('after-ignored-want', '>>> quiet(1)\n>>> print("a")  # xdoctest: +IGNORE_WANT\nb\n>>> int("zz")\n12\n>>> quiet(2)'),
+]
+
+
+def check_exception_escapes(ctx):
+    from xdoctest import doctest_example
+    for kind, doc in ESCAPES:
+        ctx.evaluation()
+        case = {'kind': 'escape', 'doc': doc, 'escape': kind}
+        dt = doctest_example.DocTest(doc)
+        if kind == 'ignore-want-default':
+            dt.config['default_runtime_state'] = {'IGNORE_WANT': True}
+        rec = harness.run_doctest(dt)
+        ctx.event('doctest_runs')
+        if rec.raised is not None:
+            ctx.violation('run-raised', 'run raised %r for %r' % (rec.raised, doc), case)
+            continue
+        s = rec.summary
+        ev = s['exc_info'][1] if s['exc_info'] else None
+        if not s['failed'] or not isinstance(ev, ValueError) or rec.T != [1]:
+            ctx.violation('false-pass' if s['passed'] else 'wrong-exception',
+                          'a statement raised ValueError that no want documents (%s): the doctest must fail with it and '
+                          'event log [1]; observed %s (%r), event log %r\n--- docstring ---\n%s' % (
+                              kind, harness.outcome(s), ev, rec.T, doc), case)
+            continue
+        ctx.cell('escape:' + kind)
+        ctx.nontrivial(doc)
+
+
 def run_shard(ctx):
     import warnings
     warnings.simplefilter('ignore')
@@ -440,6 +478,8 @@ def run_shard(ctx):
         check_case(ctx, idx, ctx.case_seed(idx))
     if ctx.shard == 0:
         check_nothing_ran(ctx)
+    if ctx.shard == 1 % ctx.nshards:
+        check_exception_escapes(ctx)
 
 
 def replay(case, ctx):
@@ -447,6 +487,8 @@ def replay(case, ctx):
     warnings.simplefilter('ignore')
     if case.get('kind') == 'nothing':
         check_nothing_ran(ctx)
+    elif case.get('kind') == 'escape':
+        check_exception_escapes(ctx)
     else:
         check_case(ctx, case['index'], case['case_seed'])
 
